@@ -253,24 +253,28 @@ impl<Builder: OctetsBuilder> Decoder<Builder> {
     /// illegal. It is okay to push more data after the first error. The
     /// method will just keep returned errors.
     pub fn push(&mut self, ch: char) -> Result<(), DecodeError> {
+        // Once an error has happened, keep returning it.
+        if let Err(err) = self.target.as_ref() {
+            return Err(*err);
+        }
+
         if self.next == 0xF0 {
-            self.target = Err(DecodeError::TrailingInput);
-            return Err(DecodeError::TrailingInput);
+            return self.fail(DecodeError::TrailingInput);
         }
 
         let val = if ch == PAD {
             // Only up to two padding characters possible.
             if self.next < 2 {
-                return Err(DecodeError::IllegalChar(ch));
+                return self.fail(DecodeError::IllegalChar(ch));
             }
             0x80 // Acts as a marker later on.
         } else {
             if ch > (127 as char) {
-                return Err(DecodeError::IllegalChar(ch));
+                return self.fail(DecodeError::IllegalChar(ch));
             }
             let val = DECODE_ALPHABET[ch as usize];
             if val == 0xFF {
-                return Err(DecodeError::IllegalChar(ch));
+                return self.fail(DecodeError::IllegalChar(ch));
             }
             val
         };
@@ -278,29 +282,43 @@ impl<Builder: OctetsBuilder> Decoder<Builder> {
         self.next += 1;
 
         if self.next == 4 {
-            let target = self.target.as_mut().unwrap(); // Err covered above.
-            target
-                .append_slice(&[(self.buf[0] << 2) | (self.buf[1] >> 4)])
-                .map_err(Into::into)?;
-            if self.buf[2] != 0x80 {
-                target
-                    .append_slice(&[(self.buf[1] << 4) | (self.buf[2] >> 2)])
-                    .map_err(Into::into)?;
-            }
-            if self.buf[3] != 0x80 {
-                if self.buf[2] == 0x80 {
-                    return Err(DecodeError::TrailingInput);
-                }
-                target
-                    .append_slice(&[(self.buf[2] << 6) | self.buf[3]])
-                    .map_err(Into::into)?;
-                self.next = 0
-            } else {
-                self.next = 0xF0
+            if let Err(err) = self.decode_group() {
+                return self.fail(err);
             }
         }
 
         Ok(())
+    }
+
+    /// Decodes the complete group of four characters in `buf`.
+    fn decode_group(&mut self) -> Result<(), DecodeError> {
+        let target = self.target.as_mut().unwrap(); // Err covered in push.
+        target
+            .append_slice(&[(self.buf[0] << 2) | (self.buf[1] >> 4)])
+            .map_err(Into::into)?;
+        if self.buf[2] != 0x80 {
+            target
+                .append_slice(&[(self.buf[1] << 4) | (self.buf[2] >> 2)])
+                .map_err(Into::into)?;
+        }
+        if self.buf[3] != 0x80 {
+            if self.buf[2] == 0x80 {
+                return Err(DecodeError::TrailingInput);
+            }
+            target
+                .append_slice(&[(self.buf[2] << 6) | self.buf[3]])
+                .map_err(Into::into)?;
+            self.next = 0
+        } else {
+            self.next = 0xF0
+        }
+        Ok(())
+    }
+
+    /// Remembers an error so that it is returned from now on.
+    fn fail(&mut self, err: DecodeError) -> Result<(), DecodeError> {
+        self.target = Err(err);
+        Err(err)
     }
 }
 
